@@ -546,13 +546,16 @@ def to_fpm_and_back_backprop(wavefunction, dx, wavelength, efl, fpm, fpm_dx=None
 
         fpm_samples = fpm.shape
 
+    # the adjoint of multiplication by the mask is multiplication by its complex conjugate
     # do not take complex conjugate of reals (no-op, but numpy still does it)
-    if np.iscomplexobj(fpm.dtype):
+    if np.iscomplexobj(fpm):
         fpm = fpm.conj()
 
-    Ebbar = -unfocus_fixed_sampling_backprop(wavefunction, fpm_dx, efl, wavelength, dx, fpm_samples)
+    # the same two shifts as to_fpm_and_back: out with shift, back with it rescaled for the return leg
+    back_shift = (shift[0] * dx / fpm_dx, shift[1] * dx / fpm_dx)
+    Ebbar = unfocus_fixed_sampling_backprop(wavefunction, fpm_dx, efl, wavelength, dx, fpm_samples, shift=back_shift)
     intermediate = Ebbar * fpm
-    Eabar = focus_fixed_sampling_backprop(intermediate, dx, efl, wavelength, fpm_dx, wavefunction.shape)
+    Eabar = focus_fixed_sampling_backprop(intermediate, dx, efl, wavelength, fpm_dx, wavefunction.shape, shift=shift)
     if return_more:
         return Eabar, Ebbar, intermediate
     else:
@@ -1266,9 +1269,9 @@ class Wavefront:
         else:
             cbar = dbar
 
-        # minus from Ebefore minus Eafter fpm
+        # field at lyot = Ebefore minus Eafter fpm, so abar = cbar minus (adjoint of to_fpm_and_back)(cbar)
         cbarW = Wavefront(cbar, self.wavelength, self.dx, self.space)
         abar = cbarW.to_fpm_and_back_backprop(efl=efl, fpm=fpm, fpm_dx=fpm_dx, method=method)
 
-        abar.data += cbar
+        abar.data = cbar - abar.data
         return abar
